@@ -225,6 +225,10 @@ def mutate_and_check(ctx, col, cname, base, basedig):
         if m is not None:
             if not (lo <= len(w) <= hi):
                 raise Violation("C08|%s|wrong-element-count-accepted" % cname, "%d elements accepted (allowed %d..%d): %r" % (len(w), lo, hi, brief(w)), case)
+            ppos = PAYLOAD_POS.get(cname)
+            if ppos is not None and len(w) > ppos + 1 and type(w[ppos]) == bytes:
+                # payload-transparency form: the opaque payload is the last element, nothing may follow it
+                raise Violation("C08|%s|wrong-element-count-accepted|payload-mode" % cname, "%d elements accepted although element %d is an opaque payload (must be the last): %r" % (len(w), ppos, brief(w)), case)
             strictness(ctx, m, cname, key, case, w)
             fixed_point(ctx, m, key, case)
         note("count:%d" % len(w), len(w), m is not None)
@@ -326,6 +330,10 @@ ROLE_FEATURES = {
     "dealer": ["caller_identification", "call_trustlevels", "pattern_based_registration", "registration_meta_api", "shared_registration", "call_timeout", "call_canceling",
                "progressive_call_results", "registration_revocation", "session_meta_api", "testament_meta_api", "payload_transparency", "payload_encryption_cryptobox"],
 }
+
+
+# position of args / of the opaque payload (payload-transparency form) in the wire list
+PAYLOAD_POS = {"Error": 5, "Publish": 4, "Event": 4, "Call": 4, "Result": 3, "Invocation": 4, "Yield": 3}
 
 
 def _allowed_alt(cname, k, junk):
